@@ -109,9 +109,9 @@ structure Cfg where
   fixed : Bool := true         -- false: record_ret_stack as it was (two size updates, finding F12)
   countFix : Bool := true      -- false: the record whose allocation fails is counted twice (get_new_shmem_buffer
                                -- and get_shmem_buffer both `losts++`), and the EXIT dropped after a failed own
-                               -- ENTRY is not counted at all (finding F13)
+                               -- ENTRY is not counted at all (finding F-C03-LOSTCOUNT)
   tailFix : Bool := true       -- false: shmem_finish forgets `losts`: records dropped at the end of a thread are
-                               -- never reported (finding F14)
+                               -- never reported (finding F-C03-LOSTTAIL)
 
 structure State where
   prod : Tid → Prod := fun _ => {}
